@@ -451,6 +451,11 @@ func (t *Thread) visit(fr *Frame, instr ssa.Instruction) cont {
 				panic(&GoPanic{msg: "runtime error: invalid memory address or nil pointer dereference"})
 			}
 			arr := (*xv).(Array)
+			if !idx.IsConst() && onlyLoaded(in) && allConstScalars(arr) {
+				// constant lookup table read at a symbolic index: keep it symbolic (ite over runs)
+				fr.env[in] = t.symTableRead(arr, idx, in.Index.Type())
+				break
+			}
 			i := t.boundsIndex(idx, len(arr), in.Index.Type())
 			fr.env[in] = &arr[i]
 		default:
@@ -559,6 +564,13 @@ func (t *Thread) boundsIndex(idx *Term, n int, ityp types.Type) int {
 	r := t.run
 	tt := r.e.tt
 	_, signed, _ := widthOf(ityp)
+	if idx.w < 64 {
+		if signed {
+			idx = tt.SExt(idx, 64)
+		} else {
+			idx = tt.ZExt(idx, 64)
+		}
+	}
 	var in *Term
 	nT := tt.Const(idx.w, uint64(n))
 	if signed {
@@ -692,6 +704,9 @@ func (t *Thread) unop(fr *Frame, in *ssa.UnOp) Value {
 	x := fr.get(in.X)
 	switch in.Op {
 	case token.MUL: // load
+		if sp, ok := x.(symLoaded); ok {
+			return sp.v
+		}
 		return t.load(x.(*Value))
 	case token.NOT:
 		return tt.BNot(x.(*Term))
@@ -1370,4 +1385,82 @@ func (p *Program) pos(pos token.Pos) string {
 		f = f[i+1:]
 	}
 	return fmt.Sprintf("%s:%d", f, ps.Line)
+}
+
+// symLoaded is the result of an IndexAddr into a constant table at a symbolic
+// index whose only uses are loads: the loaded value, already computed.
+type symLoaded struct{ v *Term }
+
+func onlyLoaded(in *ssa.IndexAddr) bool {
+	refs := in.Referrers()
+	if refs == nil || len(*refs) == 0 {
+		return false
+	}
+	for _, r := range *refs {
+		u, ok := r.(*ssa.UnOp)
+		if !ok || u.Op != token.MUL {
+			if _, isDbg := r.(*ssa.DebugRef); isDbg {
+				continue
+			}
+			return false
+		}
+	}
+	return true
+}
+
+func allConstScalars(a Array) bool {
+	if len(a) == 0 || len(a) > 4096 {
+		return false
+	}
+	for _, v := range a {
+		tm, ok := v.(*Term)
+		if !ok || !tm.IsConst() {
+			return false
+		}
+	}
+	return true
+}
+
+func (t *Thread) symTableRead(arr Array, idx *Term, ityp types.Type) Value {
+	r := t.run
+	tt := r.e.tt
+	_, signed, _ := widthOf(ityp)
+	if idx.w < 64 {
+		if signed {
+			idx = tt.SExt(idx, 64)
+		} else {
+			idx = tt.ZExt(idx, 64)
+		}
+	}
+	in := tt.Bin(OpUlt, idx, tt.Const(64, uint64(len(arr))))
+	if !r.branch(in, "bounds") {
+		panic(&GoPanic{msg: fmt.Sprintf("runtime error: index out of range [%s] with length %d", idx, len(arr))})
+	}
+	// runs of equal values, from the top down
+	res := arr[len(arr)-1].(*Term)
+	for i := len(arr) - 2; i >= 0; i-- {
+		cur := arr[i].(*Term)
+		if cur == arr[i+1].(*Term) {
+			continue
+		}
+		// indices <= i belong to earlier runs
+		res = tt.Ite(tt.Bin(OpUle, idx, tt.Const(64, uint64(i))), cur, res)
+	}
+	// the chain above nests the wrong way round for more than two runs; rebuild properly
+	res = arr[len(arr)-1].(*Term)
+	type run struct {
+		hi int
+		v  *Term
+	}
+	var runs []run
+	for i := 0; i < len(arr); i++ {
+		if i+1 == len(arr) || arr[i+1].(*Term) != arr[i].(*Term) {
+			runs = append(runs, run{i, arr[i].(*Term)})
+		}
+	}
+	res = runs[len(runs)-1].v
+	for k := len(runs) - 2; k >= 0; k-- {
+		res = tt.Ite(tt.Bin(OpUle, idx, tt.Const(64, uint64(runs[k].hi))), runs[k].v, res)
+	}
+	return symLoaded{res}
 }
